@@ -361,6 +361,13 @@ def run(prop, tier):
                rule="one case = one abstract hint list enumerated by TLC on Hints.tla x entry point (transit sender / receiver / "
                     "dilation message); every case is non-trivial (a distinct combination of JSON kinds); each is concretised "
                     "%d ways" % len(list(variants)))
+    # supplementary (no VIOLATION line comes from it): which Tor get_tor() ends up with, TorChoice.tla, every case on the real function
+    try:
+        from . import torchoice
+        with common.Workdir(prop + "tor") as wd4:
+            cov["supplementary"] = {"tor_choice": torchoice.run_family(wd4, quick, common.seed())}
+    except Exception as e:
+        cov["supplementary"] = {"tor_choice": {"error": repr(e)[:300]}}
     return v.finish(cov, assumptions=[
         "field values are abstracted to JSON kinds; concretisations use a few representative values per kind",
         "JSON true/false as port is neither required nor forbidden as an attempt (DESIGN 3.1)",
